@@ -100,6 +100,8 @@ def plan(tier, seed):
         mol = M.FEATURE[nm]
         if len(mol['atoms']) > (8 if q else 10):
             continue
+        if mol.get('arom_h'):
+            continue            # cuts next to a written [nH] are decided and recorded under C01 (C01-K1)
         parts = [p for p in M.partitions(mol, max_frag=3 if q else 4) if len(p) >= 2]
         for i in range(0, len(parts), 5):
             tasks.append({'space': 'feature', 'mols': [mol], 'name': nm, 'parts': parts[i:i + 5], 'level': 'lite', 'pre': (0, 0)})
